@@ -68,12 +68,12 @@ def _ints(s):
 
 
 # ------------------------------------------------------------------------------------------------ scenes
-def _scene(rng, gap_prob=0.15, cone=None):
+def _scene(rng, gap_prob=0.15, cone=None, wide=False):
   cone = cone or ("pyramidal" if rng.random() < 0.5 else "elliptic")
   jac = str(rng.choice(["dense", "sparse", "auto"]))
   n = int(rng.integers(1, 5))
-  if rng.random() < 0.25:
-    # 32 < nv < 60 with jacobian="auto": mujoco_warp works with a sparse Jacobian there while MuJoCo's MjData is dense
+  if rng.random() < 0.25 or wide:
+    # (forced for one case of every run) 32 < nv < 60 with jacobian="auto": mujoco_warp works with a sparse Jacobian there while MuJoCo's MjData is dense
     n, jac = int(rng.integers(6, 9)), "auto"
   bodies, meta = [], {"cone": cone, "jac": jac, "gap": 0, "kinds": []}
   for i in range(n):
@@ -647,7 +647,7 @@ def _run(ctx, nscenes, nfuzz, nfeat, with_lean=True):
   acc.hit(f"get_data_into-written-fields:{len(fields)}")
   try:
     for c in range(nscenes):
-      xml, meta = _scene(rng, gap_prob=(0.15 if c % 3 == 0 else 0.0))
+      xml, meta = _scene(rng, gap_prob=(0.15 if c % 3 == 0 else 0.0), wide=(c == 1))
       if c == 0:   # regression case, runs first: the excluded-contact scene that exposed the defect repaired in e4120b4
         xml = ('<mujoco><worldbody><geom type="plane" size="3 3 .1"/><body pos="0 0 .25"><freejoint/><geom size=".1" margin="0.1" gap="0.08"/></body>'
                '<body pos="1 0 .09"><freejoint/><geom size=".1"/></body><body pos="0 0 1"><joint type="hinge" limited="true" range="-1 -0.5"/><geom size=".05"/></body></worldbody></mujoco>')
